@@ -1,4 +1,561 @@
+(* C16_Proofs.v — lemmas for Properties_C16.v: refinement of the aux store to an insertion-ordered map,
+   rejection leaves the store unchanged, typed read-back (decimal print/parse), survival of a FITS round trip. *)
 From Coq Require Import List String Ascii NArith ZArith Bool Arith Lia.
 From PS Require Import AuxModel Generated_aux.
 Import ListNotations.
+Open Scope string_scope.
+Open Scope nat_scope.
+
+(* the translator recognised every function the model transcribes *)
 Lemma translation_ok : gen_translation_ok = true. Proof. reflexivity. Qed.
+
+(* ================================================================================================ *)
+(* A. the store as an insertion-ordered map *)
+
+Notation keys s := (map (@fst string string) s).
+
+Lemma get_in_keys : forall k s, get k s <> None <-> In k (keys s).
+Proof.
+  intros k s; induction s as [|[k' v] r IH]; cbn.
+  - split; [intros H; congruence | intros []].
+  - destruct (String.eqb k k') eqn:E.
+    + apply String.eqb_eq in E; subst. split; [intros _; now left | intros _; discriminate].
+    + apply String.eqb_neq in E. rewrite IH. split; [intros H; now right | intros [H|H]; [congruence | exact H]].
+Qed.
+
+Lemma get_none_notin : forall k s, get k s = None <-> ~ In k (keys s).
+Proof.
+  intros k s. pose proof (get_in_keys k s) as H. destruct (get k s).
+  - split; [discriminate|]. intros N; exfalso; apply N, H; discriminate.
+  - split; [|reflexivity]. intros _ I. apply H in I. congruence.
+Qed.
+
+Lemma has_key_true : forall k s, has_key k s = true <-> In k (keys s).
+Proof. intros k s; unfold has_key; rewrite <- get_in_keys; destruct (get k s); split; intros; congruence. Qed.
+Lemma has_key_false : forall k s, has_key k s = false <-> ~ In k (keys s).
+Proof. intros k s; unfold has_key; rewrite <- get_none_notin; destruct (get k s); split; intros; congruence. Qed.
+
+Lemma keys_update_first : forall k v s, keys (update_first k v s) = keys s.
+Proof.
+  intros k v s; induction s as [|[k' v'] r IH]; cbn; [reflexivity|].
+  destruct (String.eqb k k'); cbn; [reflexivity | now rewrite IH].
+Qed.
+
+Lemma get_update_first_same : forall k v s, has_key k s = true -> get k (update_first k v s) = Some v.
+Proof.
+  intros k v s; unfold has_key; induction s as [|[k' v'] r IH]; cbn; [discriminate|].
+  destruct (String.eqb k k') eqn:E; cbn; rewrite E; [reflexivity | exact IH].
+Qed.
+
+Lemma get_update_first_other : forall k k2 v s, k2 <> k -> get k2 (update_first k v s) = get k2 s.
+Proof.
+  intros k k2 v s N; induction s as [|[k' v'] r IH]; cbn; [reflexivity|].
+  destruct (String.eqb k k') eqn:E; cbn.
+  - apply String.eqb_eq in E; subst k'. apply String.eqb_neq in N. now rewrite N.
+  - destruct (String.eqb k2 k'); [reflexivity | exact IH].
+Qed.
+
+Lemma get_app_single : forall k2 k v s,
+  get k2 (s ++ [(k, v)])%list = match get k2 s with Some x => Some x | None => if String.eqb k2 k then Some v else None end.
+Proof.
+  intros k2 k v s; induction s as [|[k' v'] r IH]; cbn; [reflexivity|].
+  destruct (String.eqb k2 k'); [reflexivity | exact IH].
+Qed.
+
+Lemma keys_app_single : forall k v s, keys (s ++ [(k, v)])%list = (keys s ++ [k])%list.
+Proof. intros; now rewrite map_app. Qed.
+
+Definition nokey (k : string) : string -> bool := fun k' => negb (String.eqb k' k).
+
+Lemma filter_notin : forall k l, ~ In k l -> filter (nokey k) l = l.
+Proof.
+  intros k l; induction l as [|a r IH]; cbn; [reflexivity|]. intros H.
+  unfold nokey at 1. destruct (String.eqb a k) eqn:E; cbn.
+  - apply String.eqb_eq in E; subst; exfalso; apply H; now left.
+  - rewrite IH; [reflexivity | intros H1; apply H; now right].
+Qed.
+
+Lemma keys_remove_first : forall k s, NoDup (keys s) -> keys (remove_first k s) = filter (nokey k) (keys s).
+Proof.
+  intros k s; induction s as [|[k' v'] r IH]; cbn; [reflexivity|]. intros ND. inversion ND as [|? ? NI ND']; subst.
+  unfold nokey at 1. destruct (String.eqb k k') eqn:E.
+  - apply String.eqb_eq in E; subst k'. rewrite String.eqb_refl; cbn. now rewrite filter_notin.
+  - rewrite String.eqb_sym, E; cbn. now rewrite IH.
+Qed.
+
+Lemma get_remove_first_same : forall k s, NoDup (keys s) -> get k (remove_first k s) = None.
+Proof.
+  intros k s; induction s as [|[k' v'] r IH]; cbn; [reflexivity|]. intros ND. inversion ND as [|? ? NI ND']; subst.
+  destruct (String.eqb k k') eqn:E; cbn.
+  - apply String.eqb_eq in E; subst k'. now apply get_none_notin.
+  - rewrite E. now apply IH.
+Qed.
+
+Lemma get_remove_first_other : forall k k2 s, k2 <> k -> get k2 (remove_first k s) = get k2 s.
+Proof.
+  intros k k2 s N; induction s as [|[k' v'] r IH]; cbn; [reflexivity|].
+  destruct (String.eqb k k') eqn:E; cbn.
+  - apply String.eqb_eq in E; subst k'. apply String.eqb_neq in N. now rewrite N.
+  - destruct (String.eqb k2 k'); [reflexivity | exact IH].
+Qed.
+
+Lemma NoDup_filter : forall (f : string -> bool) l, NoDup l -> NoDup (filter f l).
+Proof.
+  intros f l ND; induction ND as [|a l NI ND IH]; cbn; [constructor|].
+  destruct (f a); [constructor; [rewrite filter_In; tauto | exact IH] | exact IH].
+Qed.
+
+Lemma NoDup_app_single : forall (k : string) l, NoDup l -> ~ In k l -> NoDup (l ++ [k])%list.
+Proof.
+  intros k l ND NI; induction ND as [|a l NA ND IH]; cbn; [constructor; [intros [] | constructor]|].
+  constructor.
+  - rewrite in_app_iff; cbn. intros [H|[H|[]]]; [tauto | subst; apply NI; now left].
+  - apply IH; intros H; apply NI; now right.
+Qed.
+
+(* agreement of a concrete store with an abstract ordered map *)
+Definition agrees (s : store) (a : amap) : Prop := a.(a_order) = keys s /\ forall k, a.(a_map) k = get k s.
+
+Lemma agrees_abs : forall s, agrees s (abs s).
+Proof. intros s; split; reflexivity. Qed.
+
+Lemma a_present_has_key : forall s a k, agrees s a -> a_present k a = has_key k s.
+Proof. intros s a k [_ H]; unfold a_present, has_key; now rewrite H. Qed.
+
+Lemma write_step : forall p k v s a, NoDup (keys s) -> agrees s a ->
+  snd (write_key p k v s) = snd (a_write p k v a) /\
+  agrees (fst (write_key p k v s)) (fst (a_write p k v a)) /\ NoDup (keys (fst (write_key p k v s))).
+Proof.
+  intros p k v s a ND AG. unfold write_key, a_write.
+  destruct (check_key p k) as [e|vmax]; cbn; [auto|].
+  destruct (p_printable_check p && negb (forall_chars is_printable v)); cbn; [auto|].
+  destruct (vmax <? enc_len p v)%N; cbn; [auto|].
+  rewrite (a_present_has_key s a k AG).
+  destruct AG as [AO AM].
+  destruct (has_key k s) eqn:HK; cbn.
+  - split; [reflexivity|]. split; [|now rewrite keys_update_first].
+    split; cbn.
+    + rewrite AM. unfold has_key in HK. destruct (get k s); [|discriminate]. now rewrite keys_update_first.
+    + intros k2. destruct (String.eqb k2 k) eqn:E.
+      * apply String.eqb_eq in E; subst. now rewrite get_update_first_same.
+      * apply String.eqb_neq in E. now rewrite get_update_first_other.
+  - split; [reflexivity|]. apply has_key_false in HK. split; [|rewrite keys_app_single; now apply NoDup_app_single].
+    split; cbn.
+    + rewrite AM. apply get_none_notin in HK. rewrite HK. now rewrite keys_app_single, AO.
+    + intros k2. rewrite get_app_single, AM. destruct (String.eqb k2 k) eqn:E.
+      * apply String.eqb_eq in E; subst. apply get_none_notin in HK. now rewrite HK.
+      * now destruct (get k2 s).
+Qed.
+
+Lemma step_refines : forall p o s a, NoDup (keys s) -> agrees s a ->
+  snd (step p s o) = snd (a_step p a o) /\ agrees (fst (step p s o)) (fst (a_step p a o)) /\ NoDup (keys (fst (step p s o))).
+Proof.
+  intros p o s a ND AG. destruct o as [k v|k z|k|k|k|k|i|]; cbn.
+  - pose proof (write_step p k v s a ND AG) as H.
+    destruct (write_key p k v s), (a_write p k v a); cbn in *. destruct H as (H1 & H2 & H3); subst; auto.
+  - unfold write_int. pose proof (write_step p k (print_Z z) s a ND AG) as H.
+    destruct (write_key p k (print_Z z) s), (a_write p k (print_Z z) a); cbn in *. destruct H as (H1 & H2 & H3); subst; auto.
+  - unfold remove_key. rewrite (a_present_has_key s a k AG). destruct (has_key k s) eqn:HK; cbn; [|auto].
+    split; [reflexivity|]. destruct AG as [AO AM]. split.
+    + split; cbn.
+      * rewrite AO. symmetry. now apply keys_remove_first.
+      * intros k2. destruct (String.eqb k2 k) eqn:E.
+        -- apply String.eqb_eq in E; subst. now rewrite get_remove_first_same.
+        -- apply String.eqb_neq in E. now rewrite get_remove_first_other.
+    + rewrite keys_remove_first by exact ND. now apply NoDup_filter.
+  - destruct AG as [AO AM]. rewrite AM. repeat split; auto.
+  - destruct AG as [AO AM]. unfold read_int, a_read_int. rewrite AM. repeat split; auto.
+  - destruct AG as [AO AM]. unfold read_str. rewrite AM. repeat split; auto.
+  - destruct AG as [AO AM]. unfold nth_key. rewrite AO. repeat split; auto.
+  - destruct AG as [AO AM]. unfold naux. rewrite AO. rewrite map_length. repeat split; auto.
+Qed.
+
+Lemma run_refines : forall p ops s a, NoDup (keys s) -> agrees s a ->
+  snd (run p s ops) = snd (a_run p a ops) /\ agrees (fst (run p s ops)) (fst (a_run p a ops)) /\ NoDup (keys (fst (run p s ops))).
+Proof.
+  intros p ops; induction ops as [|o r IH]; intros s a ND AG; cbn; [auto|].
+  pose proof (step_refines p o s a ND AG) as (H1 & H2 & H3).
+  destruct (step p s o) as [s1 x], (a_step p a o) as [a1 x']; cbn in *.
+  specialize (IH s1 a1 H3 H2). destruct (run p s1 r) as [s2 xs], (a_run p a1 r) as [a2 xs']; cbn in *.
+  destruct IH as (I1 & I2 & I3). subst. auto.
+Qed.
+
+(* what the abstract operations mean, stated directly *)
+Lemma a_put_lookup : forall k v a k2, (a_put k v a).(a_map) k2 = if String.eqb k2 k then Some v else a.(a_map) k2.
+Proof. reflexivity. Qed.
+Lemma a_put_order : forall k v a, (a_put k v a).(a_order) = if a_present k a then a.(a_order) else (a.(a_order) ++ [k])%list.
+Proof. intros; unfold a_put, a_present; cbn; now destruct (a_map a k). Qed.
+Lemma a_del_lookup : forall k a k2, (a_del k a).(a_map) k2 = if String.eqb k2 k then None else a.(a_map) k2.
+Proof. reflexivity. Qed.
+Lemma a_del_order : forall k a, (a_del k a).(a_order) = filter (nokey k) a.(a_order).
+Proof. reflexivity. Qed.
+
+(* ================================================================================================ *)
+(* B. rejection *)
+Lemma reject_no_change : forall p k v s s' e, write_key p k v s = (s', W_rejected e) -> s' = s.
+Proof.
+  intros p k v s s' e. unfold write_key.
+  destruct (check_key p k); [intros H; now inversion H|].
+  destruct (p_printable_check p && negb (forall_chars is_printable v)); [intros H; now inversion H|].
+  destruct (n <? enc_len p v)%N; [intros H; now inversion H|].
+  destruct (has_key k s); intros H; inversion H.
+Qed.
+
+Lemma accepts_iff_not_rejected : forall p k v s,
+  accepts p k v = true <-> (forall e, snd (write_key p k v s) <> W_rejected e).
+Proof.
+  intros p k v s. unfold accepts, write_key. destruct (check_key p k) as [e|vmax]; cbn.
+  - split; [discriminate | intros H; exfalso; now apply (H e)].
+  - destruct (p_printable_check p && negb (forall_chars is_printable v)); cbn.
+    + split; [discriminate | intros H; exfalso; now apply (H E_valchar)].
+    + destruct (vmax <? enc_len p v)%N; cbn.
+      * split; [discriminate | intros H; exfalso; now apply (H E_toolong)].
+      * split; [|reflexivity]. intros _ e. destruct (has_key k s); cbn; discriminate.
+Qed.
+
+Lemma accepted_write_stores : forall p k v s, accepts p k v = true -> get k (fst (write_key p k v s)) = Some v.
+Proof.
+  intros p k v s. unfold accepts, write_key. destruct (check_key p k) as [e|vmax]; [discriminate|].
+  destruct (p_printable_check p && negb (forall_chars is_printable v)); [discriminate|].
+  destruct (vmax <? enc_len p v)%N; [discriminate|]. intros _.
+  destruct (has_key k s) eqn:HK; cbn.
+  - now apply get_update_first_same.
+  - rewrite get_app_single. unfold has_key in HK. destruct (get k s); [discriminate|]. now rewrite String.eqb_refl.
+Qed.
+
+Lemma rejected_write_keeps : forall p k v s, accepts p k v = false -> fst (write_key p k v s) = s.
+Proof.
+  intros p k v s. unfold accepts, write_key. destruct (check_key p k) as [e|vmax]; [reflexivity|].
+  destruct (p_printable_check p && negb (forall_chars is_printable v)); [reflexivity|].
+  destruct (vmax <? enc_len p v)%N; [reflexivity | discriminate].
+Qed.
+
+(* ================================================================================================ *)
+(* C. decimal print / parse *)
+
+Fixpoint eval_lsd (l : list N) : N := match l with [] => 0%N | d :: r => (d + 10 * eval_lsd r)%N end.
+
+Lemma lsd_digits_value : forall fuel n, (n < 2 ^ N.of_nat fuel)%N -> eval_lsd (lsd_digits fuel n) = n.
+Proof.
+  induction fuel as [|f IH]; intros n H.
+  - cbn in H. assert (n = 0%N) by lia. subst. reflexivity.
+  - cbn [lsd_digits]. destruct (n <? 10)%N eqn:E.
+    + apply N.ltb_lt in E. cbn. rewrite N.mod_small by lia. lia.
+    + apply N.ltb_ge in E. cbn [eval_lsd]. rewrite IH.
+      * pose proof (N.div_mod n 10). lia.
+      * rewrite Nat2N.inj_succ, N.pow_succ_r' in H.
+        apply N.div_lt_upper_bound; lia.
+Qed.
+
+Lemma lsd_digits_small : forall fuel n d, In d (lsd_digits fuel n) -> (d < 10)%N.
+Proof.
+  induction fuel as [|f IH]; intros n d; cbn; [intros []|].
+  intros [H|H].
+  - subst. apply N.mod_lt. lia.
+  - destruct (n <? 10)%N; [destruct H | eauto].
+Qed.
+
+Lemma lsd_digits_nonempty : forall fuel n, lsd_digits (S fuel) n <> [].
+Proof. intros; cbn; discriminate. Qed.
+
+Lemma code_digit_char : forall d, (d < 10)%N -> code (digit_char d) = 48 + N.to_nat d.
+Proof. intros d H. unfold code, digit_char. rewrite nat_ascii_embedding; lia. Qed.
+
+Lemma is_digit_digit_char : forall d, (d < 10)%N -> is_digit (digit_char d) = true.
+Proof.
+  intros d H. unfold is_digit. rewrite code_digit_char by exact H.
+  apply andb_true_intro; split; apply Nat.leb_le; lia.
+Qed.
+
+Lemma digit_val_digit_char : forall d, (d < 10)%N -> digit_val (digit_char d) = d.
+Proof. intros d H. unfold digit_val. rewrite code_digit_char by exact H. lia. Qed.
+
+Definition eval_msd (l : list N) (acc : N) : N := fold_left (fun a d => (a * 10 + d)%N) l acc.
+
+Lemma eval_msd_rev : forall l, eval_msd (rev l) 0%N = eval_lsd l.
+Proof.
+  intros l. unfold eval_msd. induction l as [|d r IH]; cbn [rev eval_lsd]; [reflexivity|].
+  rewrite fold_left_app. cbn [fold_left]. rewrite IH. lia.
+Qed.
+
+(* a string that does not continue a number *)
+Definition stops (rest : string) : Prop := match rest with EmptyString => True | String c _ => is_digit c = false end.
+
+Lemma parse_digits_msd : forall l rest acc seen, (forall d, In d l -> (d < 10)%N) -> stops rest ->
+  parse_digits (string_of_list (map digit_char l) ++ rest) acc seen =
+  (eval_msd l acc, match l with [] => seen | _ => true end).
+Proof.
+  induction l as [|d r IH]; intros rest acc seen Hd Hs.
+  - cbn. destruct rest as [|c rest]; cbn; [reflexivity|]. cbn in Hs. now rewrite Hs.
+  - unfold string_of_list. cbn [map fold_right append parse_digits eval_msd fold_left].
+    change (fold_right String EmptyString (map digit_char r)) with (string_of_list (map digit_char r)).
+    rewrite is_digit_digit_char by (apply Hd; now left).
+    rewrite digit_val_digit_char by (apply Hd; now left).
+    rewrite IH by (auto; intros; apply Hd; now right). now destruct r.
+Qed.
+
+Lemma log2_fuel : forall n, (n < 2 ^ N.of_nat (S (N.to_nat (N.log2 n))))%N.
+Proof.
+  intros n. rewrite Nat2N.inj_succ, N2Nat.id. destruct n as [|q]; [cbn; lia|].
+  apply N.log2_spec. lia.
+Qed.
+
+Lemma parse_digits_print_N : forall n rest, stops rest -> parse_digits (print_N n ++ rest) 0%N false = (n, true).
+Proof.
+  intros n rest Hs. unfold print_N.
+  rewrite parse_digits_msd; [| intros d H; apply in_rev in H; now apply lsd_digits_small in H | exact Hs].
+  rewrite eval_msd_rev, lsd_digits_value by apply log2_fuel.
+  destruct (rev (lsd_digits (S (N.to_nat (N.log2 n))) n)) eqn:E; [|reflexivity].
+  exfalso. apply (f_equal (@rev N)) in E. rewrite rev_involutive in E. cbn in E. now apply lsd_digits_nonempty in E.
+Qed.
+
+Lemma print_N_first_digit : forall n, exists c r, print_N n = String c r /\ is_digit c = true.
+Proof.
+  intros n. unfold print_N.
+  destruct (rev (lsd_digits (S (N.to_nat (N.log2 n))) n)) as [|d l] eqn:E.
+  - exfalso. apply (f_equal (@rev N)) in E. rewrite rev_involutive in E. cbn in E. now apply lsd_digits_nonempty in E.
+  - cbn. eexists; eexists; split; [reflexivity|]. apply is_digit_digit_char.
+    apply (lsd_digits_small (S (N.to_nat (N.log2 n))) n). apply in_rev. rewrite E. now left.
+Qed.
+
+Lemma digit_not_space : forall c, is_digit c = true -> is_space c = false.
+Proof.
+  intros c. unfold is_digit, is_space. intros H. apply andb_prop in H as [H1 H2].
+  apply Nat.leb_le in H1, H2.
+  destruct (code c =? 32) eqn:E1; [apply Nat.eqb_eq in E1; lia|].
+  destruct (9 <=? code c) eqn:E2, (code c <=? 13) eqn:E3; try reflexivity. apply Nat.leb_le in E3. lia.
+Qed.
+
+Lemma digit_not_sign : forall c, is_digit c = true -> Ascii.eqb c "-"%char = false /\ Ascii.eqb c "+"%char = false.
+Proof.
+  intros c H. unfold is_digit in H. apply andb_prop in H as [H1 H2]. apply Nat.leb_le in H1, H2.
+  split; apply Ascii.eqb_neq; intros E; subst; cbn in *; lia.
+Qed.
+
+Theorem parse_print_Z : forall z rest, stops rest -> parse_Z (print_Z z ++ rest) = Some z.
+Proof.
+  intros z rest Hs. unfold parse_Z, print_Z. destruct z as [|q|q].
+  - destruct (print_N_first_digit (Z.to_N 0)) as (c & r & E & D).
+    pose proof (parse_digits_print_N (Z.to_N 0) rest Hs) as P. rewrite E in *. cbn [append drop_while].
+    rewrite (digit_not_space c D). destruct (digit_not_sign c D) as [S1 S2]. rewrite S1, S2.
+    cbn [append] in P. rewrite P. reflexivity.
+  - destruct (print_N_first_digit (Z.to_N (Z.pos q))) as (c & r & E & D).
+    pose proof (parse_digits_print_N (Z.to_N (Z.pos q)) rest Hs) as P. rewrite E in *. cbn [append drop_while].
+    rewrite (digit_not_space c D). destruct (digit_not_sign c D) as [S1 S2]. rewrite S1, S2.
+    cbn [append] in P. rewrite P. cbn. reflexivity.
+  - cbn [append drop_while]. change (is_space "-"%char) with false. cbn [Ascii.eqb Bool.eqb].
+    rewrite parse_digits_print_N by exact Hs. reflexivity.
+Qed.
+
+Lemma stops_empty : stops EmptyString. Proof. exact I. Qed.
+Lemma append_empty_r : forall s, s ++ EmptyString = s.
+Proof. induction s as [|c r IH]; cbn; [reflexivity | now rewrite IH]. Qed.
+
+Theorem parse_print_Z_exact : forall z, parse_Z (print_Z z) = Some z.
+Proof. intros z. rewrite <- (append_empty_r (print_Z z)). apply parse_print_Z. exact I. Qed.
+
+Lemma typed_read_int : forall p k z s, accepts p k (print_Z z) = true -> (int_min <= z <= int_max)%Z ->
+  read_int k (fst (write_int p k z s)) = Some z.
+Proof.
+  intros p k z s A R. unfold read_int, write_int. rewrite accepted_write_stores by exact A.
+  rewrite parse_print_Z_exact.
+  destruct (int_min <=? z)%Z eqn:E1, (z <=? int_max)%Z eqn:E2; cbn; try reflexivity; lia.
+Qed.
+
+Lemma typed_read_str : forall p k v s, accepts p k v = true -> read_str k (fst (write_key p k v s)) = Some v.
+Proof. intros. unfold read_str. now apply accepted_write_stores. Qed.
+
+(* ================================================================================================ *)
+(* D. FITS round trip *)
+
+Notation blanks n := (repeat_char blank n).
+Notation qs := (String quote EmptyString).
+
+Fixpoint dbl (v : string) : string :=
+  match v with EmptyString => EmptyString
+  | String c r => if is_quote c then String c (String c (dbl r)) else String c (dbl r) end.
+Definition elen (v : string) : nat := String.length v + count_chars is_quote v.
+(* the value field of a card: opening quote, doubled text, j blanks, closing quote *)
+Definition Q (v : string) (j : nat) : string := String quote (dbl v ++ blanks j ++ qs).
+
+(* ---- strings *)
+Lemma len_app : forall a b, String.length (a ++ b) = String.length a + String.length b.
+Proof. induction a as [|c r IH]; intros b; cbn; [reflexivity | now rewrite IH]. Qed.
+Lemma app_assoc_s : forall a b c : string, (a ++ b) ++ c = a ++ (b ++ c).
+Proof. induction a as [|x r IH]; intros b c; cbn; [reflexivity | now rewrite IH]. Qed.
+Lemma len_repeat : forall c n, String.length (repeat_char c n) = n.
+Proof. induction n as [|n IH]; cbn; [reflexivity | now rewrite IH]. Qed.
+Lemma len_dbl : forall v, String.length (dbl v) = elen v.
+Proof.
+  unfold elen; induction v as [|c r IH]; cbn; [reflexivity|].
+  destruct (is_quote c); cbn; rewrite IH; lia.
+Qed.
+Lemma take_all : forall n s, String.length s <= n -> take n s = s.
+Proof.
+  induction n as [|n IH]; intros s H; destruct s as [|c r]; cbn in *; try reflexivity; try lia.
+  rewrite IH; [reflexivity | lia].
+Qed.
+Lemma take_app_more : forall a b n, take (String.length a + n) (a ++ b) = a ++ take n b.
+Proof. induction a as [|c r IH]; intros b n; cbn; [reflexivity | now rewrite IH]. Qed.
+Lemma take_app_exact : forall a b, take (String.length a) (a ++ b) = a.
+Proof.
+  intros a b. rewrite <- (Nat.add_0_r (String.length a)), take_app_more.
+  destruct b; cbn; now rewrite append_empty_r.
+Qed.
+Lemma take_blanks_app : forall j m y, j <= m -> take j (blanks m ++ y) = blanks j.
+Proof.
+  induction j as [|j IH]; intros m y H; [now destruct (blanks m ++ y)|].
+  destruct m as [|m]; [lia|]. cbn. rewrite IH; [reflexivity | lia].
+Qed.
+Lemma drop_app_exact : forall a b, drop (String.length a) (a ++ b) = b.
+Proof. induction a as [|c r IH]; intros b; cbn; [now destruct b | apply IH]. Qed.
+Lemma last_char_app : forall a c, last_char (a ++ String c EmptyString) = Some c.
+Proof.
+  induction a as [|x r IH]; intros c; cbn; [reflexivity|].
+  rewrite IH. destruct (r ++ String c EmptyString) eqn:E; [|reflexivity].
+  destruct r; discriminate.
+Qed.
+Lemma forall_chars_app : forall f a b, forall_chars f (a ++ b) = forall_chars f a && forall_chars f b.
+Proof. induction a as [|c r IH]; intros b; cbn; [reflexivity | now rewrite IH, andb_assoc]. Qed.
+Lemma forall_chars_repeat : forall f c n, f c = true -> forall_chars f (repeat_char c n) = true.
+Proof. induction n as [|n IH]; intros H; cbn; [reflexivity | now rewrite H, IH]. Qed.
+Lemma forall_chars_impl : forall (f g : ascii -> bool) s, (forall c, f c = true -> g c = true) ->
+  forall_chars f s = true -> forall_chars g s = true.
+Proof.
+  induction s as [|c r IH]; intros H; cbn; [reflexivity|]. intros E. apply andb_prop in E as [E1 E2].
+  now rewrite (H c E1), IH.
+Qed.
+Lemma forall_chars_dbl : forall f v, forall_chars f v = true -> forall_chars f (dbl v) = true.
+Proof.
+  induction v as [|c r IH]; cbn; [reflexivity|]. intros E. apply andb_prop in E as [E1 E2].
+  destruct (is_quote c); cbn; now rewrite ?E1, IH.
+Qed.
+Lemma sanitize_id : forall s, forall_chars is_printable s = true -> sanitize s = s.
+Proof.
+  induction s as [|c r IH]; cbn; [reflexivity|]. intros E. apply andb_prop in E as [E1 E2]. now rewrite E1, IH.
+Qed.
+Lemma get_app_exact : forall a c r, String.get (String.length a) (a ++ String c r) = Some c.
+Proof. induction a as [|x a IH]; intros c r; cbn; [reflexivity | apply IH]. Qed.
+Lemma prefix_get : forall a s, String.prefix a s = true -> forall n c, String.get n a = Some c -> String.get n s = Some c.
+Proof.
+  induction a as [|x a IH]; intros s H n c G; [destruct n; discriminate|].
+  destruct s as [|y s]; cbn in H; [discriminate|]. destruct (ascii_dec x y); [subst|discriminate].
+  destruct n as [|n]; cbn in *; [exact G | now apply IH].
+Qed.
+Lemma prefix_app : forall a b, String.prefix a (a ++ b) = true.
+Proof. induction a as [|x a IH]; intros b; cbn; [now destruct b|]. destruct (ascii_dec x x); [apply IH | congruence]. Qed.
+
+(* ---- trailing blanks *)
+Lemma rstrip_blanks : forall j, rstrip (blanks j) = EmptyString.
+Proof. induction j as [|j IH]; cbn; [reflexivity | now rewrite IH]. Qed.
+Lemma rstrip_app_blanks : forall v j, rstrip (v ++ blanks j) = rstrip v.
+Proof. induction v as [|c r IH]; intros j; cbn; [apply rstrip_blanks | now rewrite IH]. Qed.
+Definition last_nonblank (k : string) : bool := match last_char k with Some c => negb (is_blank c) | None => true end.
+Definition first_nonblank (k : string) : bool := match first_char k with Some c => negb (is_blank c) | None => true end.
+Lemma rstrip_id : forall k, last_nonblank k = true -> rstrip k = k.
+Proof.
+  unfold last_nonblank. induction k as [|c r IH]; [reflexivity|]. intros H.
+  destruct r as [|c2 r2].
+  - cbn in *. destruct (is_blank c); [discriminate | reflexivity].
+  - change (last_char (String c (String c2 r2))) with (last_char (String c2 r2)) in H.
+    specialize (IH H). cbn [rstrip] in *. now rewrite IH.
+Qed.
+Lemma drop_while_id : forall k, first_nonblank k = true -> drop_while is_blank k = k.
+Proof. unfold first_nonblank. intros [|c r]; cbn; [reflexivity|]. now destruct (is_blank c). Qed.
+Lemma drop_while_app : forall k t, k <> EmptyString -> first_nonblank k = true -> drop_while is_blank (k ++ t) = k ++ t.
+Proof. unfold first_nonblank. intros [|c r] t N; cbn; [congruence|]. now destruct (is_blank c). Qed.
+Lemma strip_blanks_pad : forall k j, k <> EmptyString -> first_nonblank k = true -> last_nonblank k = true ->
+  strip_blanks (k ++ blanks j) = k.
+Proof.
+  intros k j N F L. unfold strip_blanks. rewrite drop_while_app by assumption.
+  now rewrite rstrip_app_blanks, rstrip_id.
+Qed.
+
+(* ---- ffs2c *)
+Lemma s2c_loop_ok : forall v jj, jj + elen v <= 69 -> s2c_loop v jj = (dbl v, jj + elen v).
+Proof.
+  unfold elen. induction v as [|c r IH]; intros jj H; cbn [s2c_loop dbl]; [f_equal; cbn; lia|].
+  cbn [String.length count_chars] in H.
+  destruct (69 <=? jj) eqn:E; [apply Nat.leb_le in E; lia|].
+  destruct (is_quote c) eqn:EQ.
+  - rewrite IH by lia. f_equal. cbn [String.length count_chars]. rewrite EQ. lia.
+  - rewrite IH by lia. f_equal. cbn [String.length count_chars]. rewrite EQ. lia.
+Qed.
+Lemma elen_ge_len : forall v, String.length v <= elen v.
+Proof. unfold elen; intros; lia. Qed.
+Lemma ffs2c_ok : forall v, elen v <= 68 -> ffs2c v = Q v (8 - elen v).
+Proof.
+  intros v H. unfold ffs2c. rewrite take_all by (pose proof (elen_ge_len v); lia).
+  rewrite s2c_loop_ok by lia.
+  destruct (1 + elen v =? 70) eqn:E; [apply Nat.eqb_eq in E; lia|].
+  unfold Q. repeat f_equal; try lia.
+Qed.
+Lemma len_Q : forall v j, String.length (Q v j) = elen v + j + 2.
+Proof. intros. unfold Q. cbn [String.length]. rewrite !len_app, len_dbl, len_repeat. cbn. lia. Qed.
+
+(* ---- ffpsvc on a quoted value, the reader *)
+Lemma quoted_tail_blanks : forall j, quoted_tail (blanks j ++ qs) = Some (blanks j ++ qs).
+Proof. induction j as [|j IH]; cbn; [reflexivity|]. cbn in IH. now rewrite IH. Qed.
+Lemma quoted_tail_dbl : forall v t t', quoted_tail t = Some t' -> quoted_tail (dbl v ++ t) = Some (dbl v ++ t').
+Proof.
+  induction v as [|c r IH]; intros t t' H; cbn [dbl append]; [exact H|].
+  destruct (is_quote c) eqn:E; cbn [append quoted_tail]; rewrite E.
+  - now rewrite (IH t t' H).
+  - now rewrite (IH t t' H).
+Qed.
+Lemma parse_value_text_Q : forall i v j, parse_value_text (blanks i ++ Q v j) = Some (Q v j).
+Proof.
+  intros i v j. unfold parse_value_text.
+  assert (D : drop_while is_blank (blanks i ++ Q v j) = Q v j) by (induction i as [|i IH]; cbn; [reflexivity | exact IH]).
+  rewrite D. unfold Q at 1. change (is_quote quote) with true. cbn iota.
+  rewrite (quoted_tail_dbl v _ _ (quoted_tail_blanks j)). reflexivity.
+Qed.
+Lemma strip_quotes_Q : forall v j, strip_quotes (Q v j) = dbl v ++ blanks j.
+Proof.
+  intros v j. unfold Q, strip_quotes. change (is_quote quote) with true. cbn iota.
+  rewrite <- app_assoc_s. rewrite last_char_app. change (is_quote quote) with true. cbn iota.
+  rewrite len_app. cbn [String.length]. replace (String.length (dbl v ++ blanks j) + 1 - 1) with (String.length (dbl v ++ blanks j)) by lia.
+  apply take_app_exact.
+Qed.
+Lemma undouble_blanks : forall j, undouble (blanks j) = blanks j.
+Proof.
+  induction j as [|j IH]; [reflexivity|]. destruct j as [|j']; [reflexivity|].
+  change (blanks (S (S j'))) with (String blank (String blank (blanks j'))).
+  cbn [undouble]. change (is_quote blank) with false. cbn [andb].
+  cbn in IH. change (is_quote blank) with false in IH. cbn in IH. now rewrite IH.
+Qed.
+Lemma undouble_dbl : forall v j, undouble (dbl v ++ blanks j) = v ++ blanks j.
+Proof.
+  induction v as [|c r IH]; intros j; cbn [dbl append]; [apply undouble_blanks|].
+  destruct (is_quote c) eqn:E.
+  - cbn [append undouble]. rewrite E. cbn. now rewrite IH.
+  - cbn [append undouble]. rewrite E. cbn [andb]. rewrite IH.
+    destruct (dbl r ++ blanks j) eqn:D; [|reflexivity].
+    (* the tail is empty: then r and the blanks are empty too *)
+    assert (L : String.length (dbl r ++ blanks j) = 0) by now rewrite D.
+    rewrite len_app, len_dbl, len_repeat in L. pose proof (elen_ge_len r).
+    destruct r; [|cbn in *; lia]. destruct j; [reflexivity | cbn in L; lia].
+Qed.
+Lemma reader_value_Q : forall p v j, p_unquote_read p = true -> reader_value p (Q v j) = v ++ blanks j.
+Proof.
+  intros p v j H. unfold reader_value. rewrite H, strip_quotes_Q. unfold Q at 1. cbn [first_char].
+  change (is_quote quote) with true. cbn. apply undouble_dbl.
+Qed.
+
+(* ---- keyword of a card *)
+Definition not_eq (c : ascii) : bool := negb (Ascii.eqb c eq_sign).
+Lemma before_eq_app : forall a r, forall_chars not_eq a = true -> before_eq (a ++ String eq_sign r) = a.
+Proof.
+  induction a as [|c a IH]; intros r H; cbn; [reflexivity|]. cbn in H. apply andb_prop in H as [H1 H2].
+  unfold not_eq in H1. destruct (Ascii.eqb c eq_sign); [discriminate|]. now rewrite IH.
+Qed.
+Lemma before_eq_none : forall a, forall_chars not_eq a = true -> before_eq a = a.
+Proof.
+  induction a as [|c a IH]; intros H; cbn; [reflexivity|]. cbn in H. apply andb_prop in H as [H1 H2].
+  unfold not_eq in H1. destruct (Ascii.eqb c eq_sign); [discriminate|]. now rewrite IH.
+Qed.
+Lemma after_eq_app : forall a r, forall_chars not_eq a = true -> after_eq (a ++ String eq_sign r) = Some r.
+Proof.
+  induction a as [|c a IH]; intros r H; cbn; [reflexivity|]. cbn in H. apply andb_prop in H as [H1 H2].
+  unfold not_eq in H1. destruct (Ascii.eqb c eq_sign); [discriminate|]. now rewrite IH.
+Qed.
